@@ -6,6 +6,7 @@
 -/
 import AITB.Props.C18a
 namespace AITB.Cassandra
+variable {fl : Flags}
 
 /-! ### index tokens -/
 
@@ -20,13 +21,13 @@ theorem mem_toList (sel : Sel) (max i : Nat) : i ∈ sel.toList max ↔ sel.cove
 
 /-- what an index token means: `*`, a declared name, or — only if it is not a declared name — a number
     below the size of the dimension -/
-def Resolves (map : IDMap) (max : Nat) (tok : Str) (sel : Sel) : Prop :=
+def Resolves (fl : Flags) (map : IDMap) (max : Nat) (tok : Str) (sel : Sel) : Prop :=
   (tok = ['*'] ∧ sel = .all) ∨
   (tok ≠ ['*'] ∧ ((∃ i, map.find tok = some i ∧ sel = .idx i) ∨
-                  (map.find tok = none ∧ ∃ i, stoul tok = .ok i ∧ i < max ∧ sel = .idx i)))
+                  (map.find tok = none ∧ ∃ i, stoulS fl tok = .ok i ∧ i < max ∧ sel = .idx i)))
 
 theorem parseIndeces_iff (tok : Str) (map : IDMap) (max : Nat) (l : List Nat) :
-    parseIndeces tok map max = .ok l ↔ ∃ sel, Resolves map max tok sel ∧ l = sel.toList max := by
+    parseIndeces fl tok map max = .ok l ↔ ∃ sel, Resolves fl map max tok sel ∧ l = sel.toList max := by
   constructor
   · intro h
     unfold parseIndeces at h
@@ -69,31 +70,31 @@ theorem mapM_ok_length {α β} (f : α → R β) (l : List α) (r : List β) (h 
     simp [ih ys h3]
 
 theorem parseVectorToks_iff (toks : List Str) (N : Nat) (vs : List XRat) :
-    parseVectorToks toks N = .ok vs ↔ toks.length = N ∧ toks.mapM stod = .ok vs := by
+    parseVectorToks fl toks N = .ok vs ↔ toks.length = N ∧ toks.mapM (stodS fl) = .ok vs := by
   unfold parseVectorToks
   by_cases h : toks.length = N
   · simp [h]
   · simp [h]
 
 theorem parseVectorToks_length {toks : List Str} {N : Nat} {vs : List XRat}
-    (h : parseVectorToks toks N = .ok vs) : vs.length = N := by
+    (h : parseVectorToks fl toks N = .ok vs) : vs.length = N := by
   obtain ⟨h1, h2⟩ := (parseVectorToks_iff ..).1 h
   rw [mapM_ok_length _ _ _ h2, h1]
 
-theorem parseVector_length {s : Str} {N : Nat} {vs : List XRat} (h : parseVector s N = .ok vs) : vs.length = N :=
+theorem parseVector_length {s : Str} {N : Nat} {vs : List XRat} (h : parseVector fl s N = .ok vs) : vs.length = N :=
   parseVectorToks_length h
 
 /-- wrong element count is rejected -/
 theorem parseVectorToks_rejects_wrong_count (toks : List Str) (N : Nat) (h : toks.length ≠ N) :
-    parseVectorToks toks N = .error .runtime := by
+    parseVectorToks fl toks N = .error .runtime := by
   simp [parseVectorToks, h]
 
 /-! ### matrix rows -/
 
 /-- the rows of a matrix statement, line by line -/
-def RowsDenote (D3 : Nat) : List Str → List (List XRat) → Prop
+def RowsDenote (fl : Flags) (D3 : Nat) : List Str → List (List XRat) → Prop
   | [], [] => True
-  | l :: ls, r :: rs => parseVector l D3 = .ok r ∧ RowsDenote D3 ls rs
+  | l :: ls, r :: rs => parseVector fl l D3 = .ok r ∧ RowsDenote fl D3 ls rs
   | _, _ => False
 
 def matWrites (av : List Nat) : Nat → List (List XRat) → List Write
@@ -101,8 +102,8 @@ def matWrites (av : List Nat) : Nat → List (List XRat) → List Write
   | d1, r :: rs => (av.flatMap fun a => writesVec d1 a r) ++ matWrites av (d1 + 1) rs
 
 theorem matrixRows_iff (av : List Nat) (D3 n d1 : Nat) (rest : List Str) (ws : List Write) :
-    matrixRows av D3 n d1 rest = .ok ws ↔
-      ∃ rows, rows.length = n ∧ n ≤ rest.length ∧ RowsDenote D3 (rest.take n) rows ∧ ws = matWrites av d1 rows := by
+    matrixRows fl av D3 n d1 rest = .ok ws ↔
+      ∃ rows, rows.length = n ∧ n ≤ rest.length ∧ RowsDenote fl D3 (rest.take n) rows ∧ ws = matWrites av d1 rows := by
   induction n generalizing d1 rest ws with
   | zero =>
     simp only [matrixRows, pure_ok]
@@ -170,37 +171,38 @@ theorem lastHit_matWrites (av : List Nat) (d0 : Nat) (rows : List (List XRat)) (
 
 /-- The supported grammar of a `T` / `O` statement, read off the tokens of the line:
     which statement the line (with the following lines `rest`) denotes and how many following lines belong to it. -/
-inductive MatrixLine (D1 D2 D3 : Nat) (amap d1map d3map : IDMap) (line : Str) (rest : List Str) : Stmt → Nat → Prop
+inductive MatrixLine (fl : Flags) (D1 D2 D3 : Nat) (amap d1map d3map : IDMap) (line : Str) (rest : List Str) : Stmt → Nat → Prop
   /-- `X: a : d1 : d3 v` -/
   | entry {ta t1 t3 tv : Str} {a d1 d3 : Sel} {v : XRat} :
       countColon line = 3 →
       (tokenize colonSpace line)[1]? = some ta → (tokenize colonSpace line)[2]? = some t1 →
       (tokenize colonSpace line)[3]? = some t3 → (tokenize colonSpace line)[4]? = some tv →
-      Resolves amap D2 ta a → Resolves d1map D1 t1 d1 → Resolves d3map D3 t3 d3 → stod tv = .ok v →
-      MatrixLine D1 D2 D3 amap d1map d3map line rest ⟨a, d1, .entry d3 v⟩ 0
+      Resolves fl amap D2 ta a → Resolves fl d1map D1 t1 d1 → Resolves fl d3map D3 t3 d3 → stodS fl tv = .ok v →
+      (fl.exactCounts = true → (tokenize colonSpace line).length = 5) →
+      MatrixLine fl D1 D2 D3 amap d1map d3map line rest ⟨a, d1, .entry d3 v⟩ 0
   /-- `X: a : d1 v_0 … v_{D3-1}` -/
   | rowInline {ta t1 : Str} {a d1 : Sel} {vs : List XRat} :
       countColon line = 2 →
       (tokenize colonSpace line)[1]? = some ta → (tokenize colonSpace line)[2]? = some t1 →
-      Resolves amap D2 ta a → Resolves d1map D1 t1 d1 →
-      (tokenize colonSpace line).length = 3 + D3 → ((tokenize colonSpace line).drop 3).mapM stod = .ok vs →
-      MatrixLine D1 D2 D3 amap d1map d3map line rest ⟨a, d1, .row vs⟩ 0
+      Resolves fl amap D2 ta a → Resolves fl d1map D1 t1 d1 →
+      (tokenize colonSpace line).length = 3 + D3 → ((tokenize colonSpace line).drop 3).mapM (stodS fl) = .ok vs →
+      MatrixLine fl D1 D2 D3 amap d1map d3map line rest ⟨a, d1, .row vs⟩ 0
   /-- `X: a : d1` with the D3 values on the next line -/
   | rowNext {ta t1 l : Str} {a d1 : Sel} {vs : List XRat} :
       countColon line = 2 →
       (tokenize colonSpace line)[1]? = some ta → (tokenize colonSpace line)[2]? = some t1 →
-      Resolves amap D2 ta a → Resolves d1map D1 t1 d1 →
+      Resolves fl amap D2 ta a → Resolves fl d1map D1 t1 d1 →
       (tokenize colonSpace line).length = 3 → D3 ≠ 0 →
-      rest[0]? = some l → parseVector l D3 = .ok vs →
-      MatrixLine D1 D2 D3 amap d1map d3map line rest ⟨a, d1, .row vs⟩ 1
+      rest[0]? = some l → parseVector fl l D3 = .ok vs →
+      MatrixLine fl D1 D2 D3 amap d1map d3map line rest ⟨a, d1, .row vs⟩ 1
   /-- `X: a` followed by D1 lines of D3 values -/
   | matrix {ta : Str} {a : Sel} {rows : List (List XRat)} :
       countColon line = 1 →
-      (tokenize colonSpace line)[1]? = some ta → Resolves amap D2 ta a →
-      rows.length = D1 → D1 ≤ rest.length → RowsDenote D3 (rest.take D1) rows →
-      MatrixLine D1 D2 D3 amap d1map d3map line rest ⟨a, .all, .matrix rows⟩ D1
+      (tokenize colonSpace line)[1]? = some ta → Resolves fl amap D2 ta a →
+      rows.length = D1 → D1 ≤ rest.length → RowsDenote fl D3 (rest.take D1) rows →
+      MatrixLine fl D1 D2 D3 amap d1map d3map line rest ⟨a, .all, .matrix rows⟩ D1
 
-theorem RowsDenote_lengths {D3 : Nat} {ls : List Str} {rows : List (List XRat)} (h : RowsDenote D3 ls rows) :
+theorem RowsDenote_lengths {D3 : Nat} {ls : List Str} {rows : List (List XRat)} (h : RowsDenote fl D3 ls rows) :
     ∀ r ∈ rows, r.length = D3 := by
   induction ls generalizing rows with
   | nil => cases rows with
@@ -218,16 +220,20 @@ theorem RowsDenote_lengths {D3 : Nat} {ls : List Str} {rows : List (List XRat)} 
 /-- **refinement, one T/O line**: a well-formed line is accepted whatever the flags, consumes exactly the
     lines of the statement, and its writes are, cell by cell, what the statement assigns -/
 theorem processMatrix_refines (fl : Flags) {D1 D2 D3 : Nat} {amap d1map d3map : IDMap} {line : Str} {rest : List Str}
-    {s : Stmt} {n : Nat} (h : MatrixLine D1 D2 D3 amap d1map d3map line rest s n) :
+    {s : Stmt} {n : Nat} (h : MatrixLine fl D1 D2 D3 amap d1map d3map line rest s n) :
     ∃ ws, processMatrix fl D1 D2 D3 amap d1map d3map line rest = .ok (ws, n) ∧
       ∀ d1 a d3, lastHit ws d1 a d3 = s.assigns D1 D2 D3 d1 a d3 := by
   cases h with
-  | @entry ta t1 t3 tv a d1 d3 v hc h1 h2 h3 h4 ra r1 r3 hv =>
+  | @entry ta t1 t3 tv a d1 d3 v hc h1 h2 h3 h4 ra r1 r3 hv hex =>
     refine ⟨writesEntry (d1.toList D1) (a.toList D2) (d3.toList D3) v, ?_, ?_⟩
     · have pa := (parseIndeces_iff ta amap D2 _).2 ⟨a, ra, rfl⟩
       have p1 := (parseIndeces_iff t1 d1map D1 _).2 ⟨d1, r1, rfl⟩
       have p3 := (parseIndeces_iff t3 d3map D3 _).2 ⟨d3, r3, rfl⟩
-      simp only [processMatrix, hc, at?_ok.2 h1, at?_ok.2 h2, at?_ok.2 h3, at?_ok.2 h4, pa, p1, p3, hv, bind, Except.bind, pure, Except.pure]
+      have hcnt : (fl.exactCounts && (tokenize colonSpace line).length != 5) = false := by
+        cases he : fl.exactCounts with
+        | false => rfl
+        | true => simp [hex he]
+      simp only [processMatrix, hcnt, Bool.false_eq_true, if_false, hc, at?_ok.2 h1, at?_ok.2 h2, at?_ok.2 h3, at?_ok.2 h4, pa, p1, p3, hv, bind, Except.bind, pure, Except.pure]
     · intro x y z
       rw [lastHit_writesEntry]
       simp only [mem_toList, Stmt.assigns]
@@ -236,7 +242,7 @@ theorem processMatrix_refines (fl : Flags) {D1 D2 D3 : Nat} {amap d1map d3map : 
     refine ⟨writesRow (d1.toList D1) (a.toList D2) vs, ?_, ?_⟩
     · have pa := (parseIndeces_iff ta amap D2 _).2 ⟨a, ra, rfl⟩
       have p1 := (parseIndeces_iff t1 d1map D1 _).2 ⟨d1, r1, rfl⟩
-      have hpv : parseVectorToks ((tokenize colonSpace line).drop 3) D3 = .ok vs :=
+      have hpv : parseVectorToks fl ((tokenize colonSpace line).drop 3) D3 = .ok vs :=
         (parseVectorToks_iff ..).2 ⟨by simp [hl], hvs⟩
       simp [processMatrix, hc, at?_ok.2 h1, at?_ok.2 h2, pa, p1, bind, Except.bind, hl, hpv, pure, Except.pure]
     · intro x y z
@@ -255,7 +261,7 @@ theorem processMatrix_refines (fl : Flags) {D1 D2 D3 : Nat} {amap d1map d3map : 
   | @matrix ta a rows hc h1 ra hl hle hd =>
     refine ⟨matWrites (a.toList D2) 0 rows, ?_, ?_⟩
     · have pa := (parseIndeces_iff ta amap D2 _).2 ⟨a, ra, rfl⟩
-      have hm : matrixRows (a.toList D2) D3 D1 0 rest = .ok (matWrites (a.toList D2) 0 rows) :=
+      have hm : matrixRows fl (a.toList D2) D3 D1 0 rest = .ok (matWrites (a.toList D2) 0 rows) :=
         (matrixRows_iff ..).2 ⟨rows, hl, hle, hd, rfl⟩
       simp [processMatrix, hc, at?_ok.2 h1, pa, bind, Except.bind, hm, pure, Except.pure]
     · intro x y z
@@ -277,13 +283,19 @@ theorem processMatrix_refines (fl : Flags) {D1 D2 D3 : Nat} {amap d1map d3map : 
 theorem processMatrix_ok_cases {fl : Flags}
     {D1 D2 D3 : Nat} {amap d1map d3map : IDMap} {line : Str} {rest : List Str} {ws : List Write} {n : Nat}
     (h : processMatrix fl D1 D2 D3 amap d1map d3map line rest = .ok (ws, n)) :
-    (∃ s, MatrixLine D1 D2 D3 amap d1map d3map line rest s n) ∨
+    (∃ s, MatrixLine fl D1 D2 D3 amap d1map d3map line rest s n) ∨
     (fl.rowLenThrows = false ∧ countColon line = 2 ∧ (tokenize colonSpace line).length ≠ 3 + D3 ∧
       (tokenize colonSpace line).length ≠ 3 ∧ n = 0 ∧ ∀ w, w ∉ ws) := by
   unfold processMatrix at h
   split at h
   · -- three colons
     rename_i hc
+    simp only at h
+    split at h
+    · cases h
+    rename_i hcnt
+    have hex : fl.exactCounts = true → (tokenize colonSpace line).length = 5 := by
+      intro he; simpa [he] using hcnt
     obtain ⟨ta, h1, h⟩ := bind_ok.1 h
     obtain ⟨av, hav, h⟩ := bind_ok.1 h
     obtain ⟨t1, h2, h⟩ := bind_ok.1 h
@@ -297,7 +309,7 @@ theorem processMatrix_ok_cases {fl : Flags}
     obtain ⟨d3, r3, _⟩ := (parseIndeces_iff ..).1 hd3
     have hn : n = 0 := by have := pure_ok.1 h; injection this with _ h2; exact h2.symm
     subst hn
-    exact Or.inl ⟨_, .entry hc (at?_ok.1 h1) (at?_ok.1 h2) (at?_ok.1 h3) (at?_ok.1 h4) ra r1 r3 hv⟩
+    exact Or.inl ⟨_, .entry hc (at?_ok.1 h1) (at?_ok.1 h2) (at?_ok.1 h3) (at?_ok.1 h4) ra r1 r3 hv hex⟩
   · rename_i hc
     obtain ⟨ta, h1, h⟩ := bind_ok.1 h
     obtain ⟨av, hav, h⟩ := bind_ok.1 h
@@ -349,7 +361,7 @@ theorem processMatrix_ok_cases {fl : Flags}
 theorem processMatrix_accepts_only_wellformed {fl : Flags} (hfl : fl.rowLenThrows = true)
     {D1 D2 D3 : Nat} {amap d1map d3map : IDMap} {line : Str} {rest : List Str} {ws : List Write} {n : Nat}
     (h : processMatrix fl D1 D2 D3 amap d1map d3map line rest = .ok (ws, n)) :
-    ∃ s, MatrixLine D1 D2 D3 amap d1map d3map line rest s n := by
+    ∃ s, MatrixLine fl D1 D2 D3 amap d1map d3map line rest s n := by
   rcases processMatrix_ok_cases h with hs | ⟨hf, _⟩
   · exact hs
   · rw [hfl] at hf; cases hf
@@ -357,36 +369,47 @@ theorem processMatrix_accepts_only_wellformed {fl : Flags} (hfl : fl.rowLenThrow
 /-! ### one reward statement line -/
 
 /-- `R: a : s : s1 : o v` (the observation token must be present but is not interpreted) -/
-inductive RewardLine (S A : Nat) (amap smap : IDMap) (line : Str) : Stmt → Prop
+inductive RewardLine (fl : Flags) (S A : Nat) (amap smap : IDMap) (line : Str) : Stmt → Prop
   | entry {ta t1 t3 tv : Str} {a d1 d3 : Sel} {v : XRat} :
       countColon line = 4 →
       (tokenize colonSpace line)[1]? = some ta → (tokenize colonSpace line)[2]? = some t1 →
       (tokenize colonSpace line)[3]? = some t3 → (tokenize colonSpace line)[5]? = some tv →
-      Resolves amap A ta a → Resolves smap S t1 d1 → Resolves smap S t3 d3 → stod tv = .ok v →
-      RewardLine S A amap smap line ⟨a, d1, .entry d3 v⟩
+      Resolves fl amap A ta a → Resolves fl smap S t1 d1 → Resolves fl smap S t3 d3 → stodS fl tv = .ok v →
+      (fl.exactCounts = true → (tokenize colonSpace line).length = 6) →
+      RewardLine fl S A amap smap line ⟨a, d1, .entry d3 v⟩
 
 theorem processReward_refines {S A : Nat} {amap smap : IDMap} {line : Str} {s : Stmt}
-    (h : RewardLine S A amap smap line s) :
-    ∃ ws, processReward S A amap smap line = .ok (ws, 0) ∧
+    (h : RewardLine fl S A amap smap line s) :
+    ∃ ws, processReward fl S A amap smap line = .ok (ws, 0) ∧
       ∀ d1 a d3, lastHit ws d1 a d3 = s.assigns S A S d1 a d3 := by
   cases h with
-  | @entry ta t1 t3 tv a d1 d3 v hc h1 h2 h3 h4 ra r1 r3 hv =>
+  | @entry ta t1 t3 tv a d1 d3 v hc h1 h2 h3 h4 ra r1 r3 hv hex =>
     refine ⟨writesEntry (d1.toList S) (a.toList A) (d3.toList S) v, ?_, ?_⟩
     · have pa := (parseIndeces_iff ta amap A _).2 ⟨a, ra, rfl⟩
       have p1 := (parseIndeces_iff t1 smap S _).2 ⟨d1, r1, rfl⟩
       have p3 := (parseIndeces_iff t3 smap S _).2 ⟨d3, r3, rfl⟩
-      simp only [processReward, hc, at?_ok.2 h1, at?_ok.2 h2, at?_ok.2 h3, at?_ok.2 h4, pa, p1, p3, hv, bind, Except.bind, pure, Except.pure]
+      have hcnt : (fl.exactCounts && (tokenize colonSpace line).length != 6) = false := by
+        cases he : fl.exactCounts with
+        | false => rfl
+        | true => simp [hex he]
+      simp only [processReward, hcnt, Bool.false_eq_true, if_false, hc, at?_ok.2 h1, at?_ok.2 h2, at?_ok.2 h3, at?_ok.2 h4, pa, p1, p3, hv, bind, Except.bind, pure, Except.pure]
     · intro x y z
       rw [lastHit_writesEntry]
       simp only [mem_toList, Stmt.assigns]
       cases a.covers A y <;> cases d1.covers S x <;> cases d3.covers S z <;> simp
 
 theorem processReward_accepts_only_wellformed {S A : Nat} {amap smap : IDMap} {line : Str} {ws : List Write} {n : Nat}
-    (h : processReward S A amap smap line = .ok (ws, n)) :
-    n = 0 ∧ ∃ s, RewardLine S A amap smap line s := by
+    (h : processReward fl S A amap smap line = .ok (ws, n)) :
+    n = 0 ∧ ∃ s, RewardLine fl S A amap smap line s := by
   unfold processReward at h
   split at h
   · rename_i hc
+    simp only at h
+    split at h
+    · cases h
+    rename_i hcnt
+    have hex : fl.exactCounts = true → (tokenize colonSpace line).length = 6 := by
+      intro he; simpa [he] using hcnt
     obtain ⟨ta, h1, h⟩ := bind_ok.1 h
     obtain ⟨av, hav, h⟩ := bind_ok.1 h
     obtain ⟨t1, h2, h⟩ := bind_ok.1 h
@@ -399,7 +422,7 @@ theorem processReward_accepts_only_wellformed {S A : Nat} {amap smap : IDMap} {l
     obtain ⟨d1, r1, _⟩ := (parseIndeces_iff ..).1 hd1
     obtain ⟨d3, r3, _⟩ := (parseIndeces_iff ..).1 hd3
     have hn : n = 0 := by have := pure_ok.1 h; injection this with _ h2; exact h2.symm
-    exact ⟨hn, _, .entry hc (at?_ok.1 h1) (at?_ok.1 h2) (at?_ok.1 h3) (at?_ok.1 h4) ra r1 r3 hv⟩
+    exact ⟨hn, _, .entry hc (at?_ok.1 h1) (at?_ok.1 h2) (at?_ok.1 h3) (at?_ok.1 h4) ra r1 r3 hv hex⟩
   · cases h
 
 end AITB.Cassandra
